@@ -7,7 +7,7 @@ import json
 import random
 import re
 
-from vlib import Broken, Verdict, read_ndjson, write_ndjson, require_coverage, REPO
+from vlib import unreproduced as vlib_unreproduced, Broken, Verdict, read_ndjson, write_ndjson, require_coverage, REPO
 
 TRACE_CFG = "SPECIFICATION Spec\nCHECK_DEADLOCK TRUE\n"
 
@@ -131,8 +131,7 @@ def check(w):
         byid = {s["id"]: s for s in scen}
         obs2, _ = run(w, [byid[i] for i in sorted(rej)], "confirm")
         rej2, _, _ = validate(w, obs2, "confirm")
-        if set(rej) - set(rej2):
-            raise Broken("rejections not reproduced on re-run: %s" % sorted(set(rej) - set(rej2))[:8])
+        vlib_unreproduced(v, rej, rej2)
         for o in obs2:
             if o["id"] in rej2:
                 v.violation(sig(o), {"scenario": o["scn"], "observed": {k: o[k] for k in ("alive", "ended", "nextok", "result", "reported")}})
